@@ -13,6 +13,7 @@ import (
 	"github.com/klev-dev/klevdb/pkg/index"
 	"github.com/klev-dev/klevdb/pkg/message"
 	"github.com/klev-dev/klevdb/pkg/segment"
+	"github.com/klev-dev/klevdb/pkg/verifhook"
 )
 
 var (
@@ -181,6 +182,7 @@ func (l *log) Publish(msgs []message.Message) (int64, error) {
 		l.readers = append(l.readers, newWriter.reader)
 
 		l.readersMu.Unlock()
+		verifhook.Pause("publish.rollover.swapped")
 
 		if err := oldWriter.Close(); err != nil {
 			return OffsetInvalid, err
@@ -378,6 +380,7 @@ func (l *log) delete(offsets map[int64]struct{}) ([]Message, int64, error) {
 	if err != nil {
 		return nil, 0, err
 	}
+	verifhook.Pause("delete.target-chosen")
 
 	wasWriter := false
 	l.writerMu.Lock()
@@ -417,12 +420,14 @@ func (l *log) delete(offsets map[int64]struct{}) ([]Message, int64, error) {
 	if err != nil {
 		return nil, 0, err
 	}
+	verifhook.Pause("delete.rewritten")
 
 	if len(rs.DeletedMessages) == 0 {
 		// deleted nothing, just remove rewrite files
 		return nil, 0, rs.Remove()
 	}
 
+	verifhook.Pause("delete.before-swap")
 	// check if we are deleting in the writing segment
 	l.writerMu.Lock()
 	if l.writer.reader == rdr {
